@@ -48,6 +48,7 @@ type State struct {
 	panicVal *Val // set while running deferred closures on a panicking path
 	recovered bool
 	depth    int
+	caseLit  *Term
 }
 
 func (s *State) clone() *State {
